@@ -22,11 +22,11 @@ func init() {
 }
 
 type c10Msg struct {
-	Mid   string
-	To    []string
-	Cc    []string
-	P2P   bool
-	Tag   int
+	Mid string
+	To  []string
+	Cc  []string
+	P2P bool
+	Tag int
 }
 
 func (m c10Msg) build() *fbb.Message {
